@@ -187,6 +187,21 @@ pub fn observe(id: usize, tags: Vec<String>, j: &Value, s: &SPDC, with_spectrum:
     let r_is = js.jsi_singles_idler_range(fs);
     let swapped = s.clone().with_swapped_signal_idler();
     let sw_js = swapped.joint_spectrum(integ);
+    // the exchange built independently from the public fields: beams, waist positions and the type's two product polarizations
+    // change places, everything else stays
+    let swap_as_specified = {
+      let mut e = s.clone();
+      e.signal = s.idler.clone().as_beam().into();
+      e.idler = s.signal.clone().as_beam().into();
+      e.signal_waist_position = s.idler_waist_position;
+      e.idler_waist_position = s.signal_waist_position;
+      e.crystal_setup.pm_type = match s.crystal_setup.pm_type {
+        PMType::Type2_e_eo => PMType::Type2_e_oe,
+        PMType::Type2_e_oe => PMType::Type2_e_eo,
+        t => t,
+      };
+      swapped == e || *s != *s
+    };
     let sw_o = swapped.clone().try_as_optimum().ok();
     let (sw_ref, sw_vals): (f64, Vec<f64>) = match &sw_o {
       Some(o) => {
@@ -207,6 +222,7 @@ pub fn observe(id: usize, tags: Vec<String>, j: &Value, s: &SPDC, with_spectrum:
                   // C20_swap_involutive / C20_idler_of_swapped_is_signal: swapping twice gives the setup back, so the idler singles of the
                   // swapped setup's spectrum are the signal singles of this one at the exchanged frequencies
                   "twice_same": swapped.clone().with_swapped_signal_idler() == *s,
+                  "as_specified": swap_as_specified,
                   "idler_sing_n_of_swapped": fxs(&sw_js.jsi_singles_idler_normalized_range(fs)),
                   "sing_n_exchanged": fxs(&pts[..npts_grid].iter().map(|(ws, wi)| js.jsi_singles_normalized(*wi, *ws)).collect::<Vec<_>>())},
       "centre": {"jsa_n_abs": fx(jso.jsa_normalized(w0s, w0i).norm()), "jsi_n": fx(jso.jsi_normalized(w0s, w0i)),
